@@ -43,6 +43,16 @@ def contextLists : List (Op E) → List (List E)
 def finalCode (code : Nat) (reports : List (Obs E)) : Nat :=
   if (printedOf reports).isEmpty then code else 2
 
+/-- Well-bracketed histories as a grammar: reports and `set_strict_mode` calls, contexts around
+well-bracketed bodies left normally or by an exception, and concatenations. -/
+inductive WellBracketed : List (Op E) → Prop where
+  | nil : WellBracketed []
+  | report (e : E) : WellBracketed [.report e]
+  | setStrict (b : Bool) : WellBracketed [.setStrict b]
+  | context (body : List (Op E)) : WellBracketed body → WellBracketed (.enter :: body ++ [.exit])
+  | aborted (body : List (Op E)) : WellBracketed body → WellBracketed (.enter :: body ++ [.abort])
+  | append (a b : List (Op E)) : WellBracketed a → WellBracketed b → WellBracketed (a ++ b)
+
 /-- Reporting modes of a whole computation `e₁ … eₙ` (+ optional fatal error). -/
 structure ModeResult (E : Type) where
   collected : List E      -- capture mode: the list
